@@ -10,6 +10,9 @@ Format.tla  the formatter's indenting writer as a machine (Push / Pop / S, write
             determinism and tree/Source immutability.
 Doc.tla     (FmtMode) canonical documents over the supported construct set: html(Parse(Format(Parse(x)))) =
             html(Parse(x)) per root block and Format is a fixpoint on its own output.
+            The formatter itself is modelled as a program over the abstract document (FB / FItems through the token-level indenting
+            writer): FmtText(doc) is compared byte for byte with what Format writes (a difference that keeps the meaning is MODEL-DRIFT),
+            and "Full.Model(FmtText(doc)).html = Denote(doc)" is checked by TLC (FullTrace.tla) - the meaning clause as a theorem.
 """
 import sys
 
@@ -43,6 +46,19 @@ def doc_plan(tier):
             (3, 2, "finline", "single"), (3, 2, "fcode", "single"), (3, 2, "fstructure", "pairs"), (3, 2, "finline", "pairs")]
 
 
+def theorem_plan(tier):
+    if tier == "quick":
+        return [(2, 2, "finline", "default"), (4, 2, "fstructure", "default"), (2, 2, "fcode", "default")]
+    return [(3, 2, "finline", "default"), (4, 3, "fstructure", "default"), (3, 2, "fcode", "single")]
+
+
+def meaning_theorem(ctx):
+    """C20's second clause as a theorem of the two models, no code involved: Full.tla's Model (evaluated by TLC through FullTrace.tla) on
+    the text Doc.tla's formatter program writes - and on the canonical serialization itself - gives exactly the HTML Doc.tla denotes."""
+    from checks import fullfam
+    ctx.extra["meaning_theorem_documents_agree"] = fullfam.doc_crosscheck(ctx, theorem_plan(ctx.tier), "fmt", doc_cfg)
+
+
 def gen(base):
     return ["format", "gen", base]
 
@@ -66,11 +82,16 @@ def run(ctx):
     conf = confirm_with(ctx, "format")
     model_cands = ctx.keep_confirmed(ctx.candidates, conf)
     ctx.candidates = []
+    # the meaning clause inside the specification: Full.Model(FmtText(doc)) = Denote(doc)
+    meaning_theorem(ctx)
     # canonical documents (second clause): direction A
     jobs = [dict(module="Doc", cfg_text=doc_cfg(*p), name="Doc_%s_%s_%d" % (p[2], p[3], p[0]), workers=8, timeout=6000) for p in doc_plan(ctx.tier)]
     rs = ctx.tlc_many(jobs, parallel=2)
     rc, res, _ = ctx.harness(["doc", "c20"] + [x["out"] for x in rs], timeout=6000)
     ctx.absorb(res)
+    x = res.get("extra") or {}
+    ctx.extra["format_output_equals_formatter_program"] = x.get("format_output_equals_model", 0)
+    ctx.extra["format_output_differs_from_formatter_program"] = x.get("format_output_differs_from_model", 0)
     conf = confirm_with(ctx, "doc")
     doc_cands = ctx.keep_confirmed(ctx.candidates, conf)
     ctx.candidates = []
